@@ -1,5 +1,5 @@
 SCHK = "verifharness/checks/storagechk"
-WIP["C15"] = dict(
+CHECKS["C15"] = dict(
     level="exploration", engine="E1",
     technique="stateful (model-based) property-based testing on the full-chain simulator: generated read-marker histories vs a per-(blobber, reader, allocation) counter model and an exact rational charge oracle",
     level_text="Generated histories of read markers (replayed, older, forward, huge and non-positive counters; signed by the reader, another key, or altered after signing; several readers, blobbers and allocations sharing each other; timestamps around start and expiry) interleaved with pool locks / unlocks and allocation life-cycle operations run on the real chain; after every transaction each read pool may only have fallen through a successful redeem of that client's marker by floor(price x new blocks / 16384) (stated float tolerance) or the client's own unlock; accepted markers must be signed by the reader, not move the counter back, and be recorded; refused ones change nothing.",
